@@ -562,13 +562,14 @@ PROPS = {
     ),
     "C15": dict(
         lean="AnyDB.Props.C15",
+        lean_extra=["AnyDB.Props.C15Range", "AnyDB.Props.C15Agg"],
         runs=[
             Run("lazy", "clean", [], (200, 40), (4000, 120), proj_all, ["C15", "panic"], lazy_features),
             Run("lazy", "open", ["--open"], (100, 40), (2000, 120), proj_all, ["C15", "panic"], lazy_features, clean=False),
         ],
         rule="one lazy vector per case (five kinds in rotation); sources are rewritten from a random prefix and grow after the vector was built; mappings are monotone (clean stream: window start ≤ index, first indexes within the source; open stream also empty windows and indexes beyond the source); requests: ranges with ends in {0, len-1, len, len+1, 2^63-1, random} incl. reversed and empty, point reads, sorted index lists with duplicates and out-of-range entries; non-trivial = at least three of: in-range / reversed / empty / huge range, sorted read, rewritten source, mapping, a request answered with nothing; distinct = distinct (kind, request, answer-prefix) traces",
-        assumptions=["exact operations only (DeltaSub, integer compute functions); float delta ops are outside the statement's exactness"],
-        level_text="Lean 4 theorems over the transliterated read paths: a one-source lazy vector's range read is exactly the formula on [from, min(to,len)) (C15_from1_range); point reads of all arities are the formula and yield nothing beyond the governing length (C15_from_one, C15_from_oob, C15_from_range_oob); the delta vector's point read is source[h] - source[start-1] without panic whenever the window starts at or before h, nothing out of range (C15_delta_one, C15_delta_oob); the sparse aggregation's point read is the formula, nothing out of range (C15_agg_one, C15_agg_oob, C15_agg_range_oob). The two places where the code violates the property are kept as model counterexamples and replayed witnesses (F7, F8). The window arithmetic of the delta range path and the slot table of the aggregation range path are validated by the correspondence (six range APIs = formula = model) on clean mappings; their Lean range theorems are not done yet.",
+        assumptions=["exact operations only: DeltaSub, DeltaChange on small-integer sources (the f64 arithmetic is exact there), integer compute functions; rate/average delta operators with inexact float results are outside the statement's exactness"],
+        level_text="Lean 4 theorems for the windowed delta operators over every range (Props/C15Range.lean): C15_delta_range (DeltaSub) and C15_chg_range (DeltaChange) — bulk_try_fold's single source read plus slot arithmetic returns exactly the defining formula at every index of [from, min(to, len)), for every source and every monotone window-start mapping with windows starting at or before their index; sorted reads of the change vector are the formula at every requested index (C15_chg_sorted); the sparse aggregation's range read — slot table, one sorted read of the group ends, fill — is the formula for every range and every mapping whose non-empty groups end inside the source (Props/C15Agg.lean, C15_agg_range). Further: Lean 4 theorems over the transliterated read paths: a one-source lazy vector's range read is exactly the formula on [from, min(to,len)) (C15_from1_range); point reads of all arities are the formula and yield nothing beyond the governing length (C15_from_one, C15_from_oob, C15_from_range_oob); the delta vector's point read is source[h] - source[start-1] without panic whenever the window starts at or before h, nothing out of range (C15_delta_one, C15_delta_oob); the sparse aggregation's point read is the formula, nothing out of range (C15_agg_one, C15_agg_oob, C15_agg_range_oob). The two places where the code violates the property are kept as model counterexamples and replayed witnesses (F7, F8). The window arithmetic of the delta range path and the slot table of the aggregation range path are validated by the correspondence (six range APIs = formula = model) on clean mappings; their Lean range theorems are not done yet.",
         level_note="Trusted: Lean kernel + standard axioms; hand-written model; harness. F22 (collect_range with a huge upper bound panicked) found here, repaired by a fix: commit.",
         technique="Lean 4 proof over transliterated lazy read paths + differential run of all read APIs against the defining formula and the model",
     ),
@@ -627,13 +628,14 @@ PROPS = {
     ),
     "C08": dict(
         lean="AnyDB.Props.C08",
+        lean_extra=["AnyDB.Props.C08Dirty", "AnyDB.Props.C08Pages"],
         runs=[
             Run("vec", "plain-reads", ["--mode", "plain", "--reads"], (140, 50), (2400, 150), proj_vec, ["C08", "panic"], vec_features),
             Run("vec", "rollback-reads", ["--mode", "rollback", "--reads"], (84, 50), (1400, 120), proj_vec, ["C08", "panic"], vec_features),
         ],
         rule=VEC_RULE + "; about one request in five is `reads <seed>`: 24 ranges with ends drawn from {0, 1, stored-1, stored, stored+1, len-1, len, len+1, page-1, page, page+1, 2^63-1} or uniformly (reversed, empty and out-of-range included) and 12 point reads, each through every read API of the read-write vector, and on clean states also of its read-only clone and the two stored-only scan back-ends; cursor scripts and sorted reads on hole-free states",
         assumptions=["cursor and sorted reads address by index only on vectors without deleted slots (the chunked refill of a cursor compacts deleted slots away): they are exercised on hole-free states"],
-        level_text="Lean 4 theorems on the index arithmetic of the read paths, for all lists, ranges, page and chunk sizes: the clean raw path (stored slice + buffered slice, both ends clamped) returns exactly the logical contents restricted to [from,to), reversed/out-of-range ⇒ [] (C08_rawClean, sliceOf_*); a cursor's chunk-aligned refill answers get(i) with element i for every chunk size (C08_cursor_get); a compressed range inside one page reads page[from-start, to-start) (C08_pages_single); the merged dirty iteration without overlay is the disk slice (C08_dirty_no_overlay), and handles a deleted+overlaid slot (example = the F25 history). Tied to the code by running, on every `reads` request, 24 ranges × 11 range APIs + aggregates + 12 point reads + cursor scripts + sorted reads on the read-write vector, its read-only clone and both stored-scan back-ends against the reference slice (oracle) and against the model's answer hash.",
+        level_text="Lean 4 theorem for every state of a raw vector with deleted and overlaid slots (Props/C08Dirty.lean, C08_dirty_stored): the merged iteration of fold_dirty / try_fold_dirty over the stored part returns, for every disk image, every ascending list of deleted slots and every ascending overlay, exactly the non-deleted elements of the range in index order, each with its overlay value if it has one; and for the compressed formats (Props/C08Pages.lean, C08_pages_range): read_stored_pages_into over ANY number of pages equals the slice of the stored values, for every page index with full pages before the last, every page size and every from < to ≤ stored length. Further: Lean 4 theorems on the index arithmetic of the read paths, for all lists, ranges, page and chunk sizes: the clean raw path (stored slice + buffered slice, both ends clamped) returns exactly the logical contents restricted to [from,to), reversed/out-of-range ⇒ [] (C08_rawClean, sliceOf_*); a cursor's chunk-aligned refill answers get(i) with element i for every chunk size (C08_cursor_get); a compressed range inside one page reads page[from-start, to-start) (C08_pages_single); the merged dirty iteration without overlay is the disk slice (C08_dirty_no_overlay), and handles a deleted+overlaid slot (example = the F25 history). Tied to the code by running, on every `reads` request, 24 ranges × 11 range APIs + aggregates + 12 point reads + cursor scripts + sorted reads on the read-write vector, its read-only clone and both stored-scan back-ends against the reference slice (oracle) and against the model's answer hash.",
         level_note="Trusted: Lean kernel + standard axioms; hand-written model; harness. The merged iteration with holes AND overlay (dirtyStored in full) and the multi-page window of read_stored_pages_into are validated by the correspondence only. F22, F23, F25 found here were repaired by fix: commits.",
         technique="Lean 4 proof of read-path index arithmetic + exhaustive-per-state differential run of all read APIs against the reference slice",
     ),
